@@ -322,6 +322,13 @@ def operator_call(tr, opname, ops, n, callee):
                 outs = [tr.pass_arg(a, pt) for a, pt in zip(ops[1:], info['params'])]
                 return '%s(%s)' % (info['fn'], ', '.join(outs))
             t = o['referencedDecl']['type']['qualType']
+            if '__stable_sort_fn' in t or '__sort_fn' in t:
+                # std::ranges::(stable_)sort(range, comparator): the algorithm itself is trusted (std); the comparator is
+                # extracted as a function of its own and is what the obligations examine
+                info = tr.make_lambda(strip(ops[2])) if strip(ops[2]).get('kind') == 'LambdaExpr' else None
+                if info is None:
+                    tr.bad('sort comparator form', n)
+                return '((void)0) /* std::ranges::stable_sort(<range>, %s): trusted */' % info['fn']
             for key, alg in RANGES.items():
                 if key in t:
                     rng = ops[1]
